@@ -68,8 +68,9 @@ def sh(cmd, cwd=None, timeout=None, env=None):
 
 class Lock:
     def __init__(self, name):
-        os.makedirs(OUT, exist_ok=True)
-        self.path = os.path.join(OUT, name + ".lock")
+        d = os.path.join(ROOT, "out")
+        os.makedirs(d, exist_ok=True)
+        self.path = os.path.join(d, name + ".lock")
 
     def __enter__(self):
         self.f = open(self.path, "w")
@@ -83,8 +84,22 @@ class Lock:
 # ---------------------------------------------------------------- Coq side
 
 def gen_consts():
-    rc, out = sh([sys.executable, os.path.join(ROOT, "gen", "consts.py")])
-    return rc == 0, out
+    """regenerate Gen/Consts.v from REPO.  For an alternative repo (VERIF_REPO) the shared
+    file is not rewritten: the constants are generated aside and must be identical."""
+    if not ALT:
+        rc, out = sh([sys.executable, os.path.join(ROOT, "gen", "consts.py")])
+        return rc == 0, out
+    os.makedirs(OUT, exist_ok=True)
+    env = dict(ENV)
+    env["VERIF_CONSTS_OUT"] = os.path.join(OUT, "Consts.v")
+    rc, out = sh([sys.executable, os.path.join(ROOT, "gen", "consts.py")], env=env)
+    if rc != 0:
+        return False, out
+    cur = os.path.join(COQ, "theories", "Gen", "Consts.v")
+    if not os.path.exists(cur) or open(cur).read() != open(env["VERIF_CONSTS_OUT"]).read():
+        rc2, diff = sh(["diff", cur, env["VERIF_CONSTS_OUT"]])
+        return False, "constants generated from %s differ from the ones the development was built with:\n%s" % (REPO, diff)
+    return True, out
 
 
 def coq_sources():
@@ -288,7 +303,27 @@ def coqchk(module, timeout=3000):
 
 # ---------------------------------------------------------------- Rust side
 
-def harness_build(bin_name, timeout=2400):
+ALT = os.path.realpath(REPO) != "/repo"
+ALT_TAG = "alt-" + re.sub(r"[^A-Za-z0-9]+", "_", os.path.realpath(REPO)).strip("_") if ALT else ""
+if ALT:
+    OUT = os.path.join(OUT, ALT_TAG)
+    EVID = os.path.join(OUT, "evidence")
+
+
+def harness_target_dir():
+    if ALT:
+        return os.path.join(os.path.realpath(REPO), "target-vharness")
+    return os.path.join(HARNESS, "target")
+
+
+def cargo_cmd(pkg, bin_name):
+    cmd = ["cargo", "build", "--offline"]
+    for c in ("nervusdb", "nervusdb-api", "nervusdb-storage", "nervusdb-query"):
+        cmd += ["--config", 'patch.crates-io.%s.path="%s"' % (c, os.path.join(os.path.realpath(REPO), c))]
+    return cmd + (["-p", pkg] if pkg else []) + ["--bin", bin_name]
+
+
+def harness_build(bin_name, pkg=None, timeout=2400):
     with Lock("cargo"):
         lock_src = os.path.join(REPO, "Cargo.lock")
         lock_dst = os.path.join(HARNESS, "Cargo.lock")
@@ -296,16 +331,18 @@ def harness_build(bin_name, timeout=2400):
             shutil.copy(lock_src, lock_dst)
         env = dict(ENV)
         env["RUSTFLAGS"] = "--cfg %s --check-cfg cfg(%s)" % (GUARD, GUARD)
+        env["CARGO_TARGET_DIR"] = harness_target_dir()
         t0 = time.time()
-        rc, out = sh(["cargo", "build", "--offline", "--bin", bin_name], cwd=HARNESS, timeout=timeout, env=env)
+        cmd = cargo_cmd(pkg, bin_name)
+        rc, out = sh(cmd, cwd=HARNESS, timeout=timeout, env=env)
         if rc != 0 and ("lock file" in out or "failed to select a version" in out):
             shutil.copy(lock_src, lock_dst)
-            rc, out = sh(["cargo", "build", "--offline", "--bin", bin_name], cwd=HARNESS, timeout=timeout, env=env)
+            rc, out = sh(cmd, cwd=HARNESS, timeout=timeout, env=env)
         return rc == 0, out, time.time() - t0
 
 
 def harness_run(bin_name, args, timeout=3000):
-    exe = os.path.join(HARNESS, "target", "debug", bin_name)
+    exe = os.path.join(harness_target_dir(), "debug", bin_name)
     t0 = time.time()
     rc, out = sh([exe] + [str(a) for a in args], cwd=HARNESS, timeout=timeout)
     return rc, out, time.time() - t0
@@ -342,11 +379,12 @@ def read_report(outdir):
 # ---------------------------------------------------------------- findings
 
 def known_findings(prop):
-    p = os.path.join(ROOT, "known_findings.json")
+    """known (recorded, unrepaired) finding classes of a property: known/<prop>.json"""
+    p = os.path.join(ROOT, "known", prop + ".json")
     if not os.path.exists(p):
         return {}
     data = json.load(open(p))
-    return {e["id"]: e for e in data.get("known", []) if e.get("property") == prop}
+    return {e["id"]: e for e in data.get("known", [])}
 
 
 # ---------------------------------------------------------------- the driver
@@ -428,7 +466,7 @@ def run_check(spec, tier, seed, replay=None):
     # 5. implementation run + search
     files = []
     if spec.get("harness_bin"):
-        ok, out, secs = harness_build(spec["harness_bin"])
+        ok, out, secs = harness_build(spec["harness_bin"], spec.get("harness_pkg"))
         cov["harness_build_s"] = round(secs, 1)
         if not ok:
             res.broken.append(("harness does not build against /repo (correspondence cannot run)", out.strip()[-2500:]))
